@@ -110,6 +110,12 @@ func main() {
 	if vd == "" {
 		vd = "/verif"
 	}
+	if len(eng.missing) > 0 && os.Args[1] != "check" {
+		for _, m := range eng.missing {
+			fmt.Fprintln(os.Stderr, "govc: unresolved contract target:", m.msg)
+		}
+		os.Exit(2)
+	}
 	eng.known = loadKnown(vd + "/known_findings.txt")
 	fmt.Fprintf(os.Stderr, "loaded in %.1fs\n", time.Since(t0).Seconds())
 	switch os.Args[1] {
